@@ -1,3 +1,4 @@
+import PGV.Proofs.JsonRT
 import PGV.Props.Facts.RuleTable
 import PGV.Proofs.Walker
 
@@ -77,6 +78,43 @@ example :
      | .ok o => o.err o.groups | _ => none)
       = some (b! "\"Outer.A\" input \"3\", explain: it is more than 1 num-size; \"Outer.In.A\" input \"3\", explain: it is less than 5 num-size") := by
   decide
+
+/-! ### type identity
+
+Rule sets are keyed by the struct *type*.  The wire names a type by `Type().String()` plus a marker
+`#n` for the n-th distinct type that prints alike; the marker is part of the key and is dropped where
+the name is printed. -/
+
+/-- the marker is removed where the type name is printed … -/
+theorem C16_type_marker_not_printed (t ds : Bytes) (hne : ds ≠ []) (hd : ds.all (fun c => 48 ≤ c && c ≤ 57) = true) :
+    stripTypeId (t ++ 35 :: ds) = t := by
+  unfold stripTypeId
+  have hrev : (t ++ 35 :: ds).reverse = ds.reverse ++ 35 :: t.reverse := by simp
+  have hdr : ds.reverse.all (fun c => 48 ≤ c && c ≤ 57) = true := by
+    rw [List.all_eq_true] at hd ⊢
+    intro c hc; exact hd c (List.mem_reverse.mp hc)
+  obtain ⟨h1, h2⟩ := PGV.Proofs.JsonRT.takeWhile_append_stop (fun c => 48 ≤ c && c ≤ 57) ds.reverse (35 :: t.reverse) hdr
+    (by intro c r e; injection e with e1 _; subst e1; decide)
+  have hemp : ds.reverse.isEmpty = false := by
+    cases hds : ds.reverse with
+    | nil => exact absurd (List.reverse_eq_nil_iff.mp hds) hne
+    | cons _ _ => rfl
+  rw [hrev]
+  simp only [h1, h2, hemp, Bool.false_eq_true, if_false, List.reverse_reverse]
+
+/-- … and two look-alike types are different keys: a rule set registered for one does not reach the other -/
+theorem C16_look_alike_types_distinct (cfg : StructCfg) (rm : RM) (hne : rm ≠ []) :
+    let cfg' : StructCfg := { cfg with typed := [(b! "main.Line", rm)], outer := [] }
+    (structEnter cfg' (b! "Outer.A") (b! "main.Line") (b! "Line")).2 = rm ∧
+    (structEnter cfg' (b! "Outer.B") (b! "main.Line#1") (b! "Line")).2 = [] := by
+  constructor
+  · simp [structEnter, List.lookup]
+  · simp only [structEnter]
+    have hk : ((b! "main.Line#1") == (b! "main.Line")) = false := by decide
+    simp [List.lookup, hk]
+
+example : stripTypeId (b! "main.Line#1") = b! "main.Line" ∧ stripTypeId (b! "main.Line") = b! "main.Line"
+    ∧ stripTypeId (b! "struct { A int \"k:\\\"#1\\\"\" }") = b! "struct { A int \"k:\\\"#1\\\"\" }" := by decide
 
 /-- the code's rule table `validName2FnMap` binds every rule name to the function the model's table
 binds it to, and has exactly the model's rule names (re-extracted from the source on every run) -/
